@@ -9,7 +9,8 @@ term and breaks that proof obligation; the driver also evaluates the generated f
 
 Reading of the Python subset (trusted; the primitives are `lean/CnvVerif/Model/PyStr.lean`)
 * a function is a sequence of assignments to locals, `if/elif/else` statements whose branches assign the same
-  locals, and one final `return <name or expression>`; it is read as nested `let` / `if then else` expressions; a
+  locals (or a guard clause `if c: ...; return x` without else: what follows is the else branch), and a final
+  `return <name or expression>`; it is read as nested `let` / `if then else` expressions; a
   local that is re-bound gets a fresh Lean name (`nums`, `nums_1`), so Python's re-binding is plain shadowing;
 * types: parameters as declared by `SPECS`; string literals `String`; non-negative int literals `Nat` (or `Int` when
   the other operand is an `Int`); tuples become Lean pairs;
@@ -209,7 +210,12 @@ class StrFn:
             # the branches assign locals; what follows reads them: the continuation is duplicated into both branches
             c = self.cond(s.test, env)
             if not s.orelse:
-                raise Untranslatable("if without else")
+                # guard clause: `if c: ...; return x` -- what follows is the else branch
+                if not (s.body and isinstance(s.body[-1], ast.Return)):
+                    raise Untranslatable("if without else")
+                a = self.block(list(s.body), env, result)
+                b = self.block(rest, env, result)
+                return f"(bif {c} then\n  {a}\n  else\n  {b})"
             a = self.block(list(s.body) + rest, env, result)
             b = self.block(list(s.orelse) + rest, env, result)
             return f"(bif {c} then\n  {a}\n  else\n  {b})"
